@@ -263,6 +263,129 @@ def check_histories(W, rec):
             rec.violation("C15/query-args-not-recovered", f"query {qs!r}: a second request sees {got!r}, the query means {before!r} (the first request's handler edited its own args)", {"family": "args-shared", "query": qs}, monitor="identity")
 
 
+def check_faults_and_schedules(W, rec, rng):
+    """Fault: the application a request was dispatched to raises from its __call__; whoever looks at the environ afterwards
+    (an outer error handler, the debugger, a logger) still finds the request's path in SCRIPT_NAME + PATH_INFO.
+    Schedule: the URL conversions are plain functions of their argument, also when six threads convert their own URLs at
+    once (yields injected inside the converters of werkzeug.urls)."""
+    import sys
+    import threading
+    import time as _time
+
+    from werkzeug import urls as U
+
+    DispatcherMiddleware = W["DispatcherMiddleware"]
+
+    class Boom(Exception):
+        pass
+
+    def failing(env, sr):
+        raise Boom(env["PATH_INFO"])
+
+    def lazy_failing(env, sr):
+        def gen():
+            raise Boom("late")
+            yield b""
+
+        return gen()
+
+    inner = DispatcherMiddleware(failing, {"/err": failing, "/lazy": lazy_failing})
+    d = DispatcherMiddleware(failing, {"/api": failing, "/api/broken": failing, "/s\u00fcb".encode().decode("latin-1"): failing, "/svc/v1": inner, "/ok": lambda env, sr: []})
+    for script0 in ("", "/root", "/r\u00f6\u00f6t".encode().decode("latin-1")):
+        for path in ("/api/broken/deep/er", "/api/x", "/s\u00fcb/y".encode().decode("latin-1"), "/svc/v1/err/now", "/svc/v1/other", "/svc/v1/lazy/z", "/nowhere/a", "/ok/fine", "/api"):
+            env = {"SCRIPT_NAME": script0, "PATH_INFO": path, "REQUEST_METHOD": "GET"}
+            before = env["SCRIPT_NAME"] + env["PATH_INFO"]
+            try:
+                it = d(env, None)
+                for _ in it or ():
+                    pass
+            except Boom:
+                rec.observe("dispatched_applications_that_raised")
+            after = env["SCRIPT_NAME"] + env["PATH_INFO"]
+            rec.case()
+            rec.nontrivial(("dispatcher-fault", script0, path))
+            if after != before:
+                rec.violation("C15/dispatcher-breaks-concatenation", f"request {before!r}: after the mounted application raised the environ reads SCRIPT_NAME {env['SCRIPT_NAME']!r} + PATH_INFO {env['PATH_INFO']!r}",
+                              {"family": "dispatcher-fault", "script": script0, "path": path}, monitor="dispatcher-reference")
+                return
+    # ---- schedule
+    mon = sys.monitoring
+    TOOL = 5
+    try:
+        mon.use_tool_id(TOOL, "verif-yield-c15")
+    except ValueError:
+        return
+    inj = [0]
+
+    def on_line(code, line):
+        inj[0] += 1
+        _time.sleep(0)
+
+    codes = []
+    for fn in (U.uri_to_iri, U.iri_to_uri):
+        codes.append(fn.__code__)
+    for nm_ in dir(U):
+        obj = getattr(U, nm_)
+        if nm_.startswith("_unquote") and hasattr(obj, "__code__"):
+            codes.append(obj.__code__)
+    try:
+        codes.append(U._make_unquote_part.__code__)
+        codes += [k for k in U._make_unquote_part.__code__.co_consts if hasattr(k, "co_code")]
+    except AttributeError:
+        pass
+    codes = list({id(c): c for c in codes}.values())
+    mon.register_callback(TOOL, mon.events.LINE, on_line)
+    for c in codes:
+        mon.set_local_events(TOOL, c, mon.events.LINE)
+    old_si = sys.getswitchinterval()
+    sys.setswitchinterval(1e-5)
+    try:
+        NT = 6
+        urls_ = []
+        while len(urls_) < NT:
+            hk, x = gen_url(rng)
+            if "%" in x:
+                urls_.append(x)
+        alone = []
+        for x in urls_:
+            try:
+                alone.append((U.uri_to_iri(x), U.iri_to_uri(x), U.iri_to_uri(U.uri_to_iri(x))))
+            except Exception as e:  # noqa: BLE001
+                alone.append(("EXC", type(e).__name__))
+        wrong = []
+        start = threading.Barrier(NT)
+
+        def work(i):
+            start.wait()
+            _time.sleep(i * 0.0003)
+            for _ in range(25):
+                try:
+                    got = (U.uri_to_iri(urls_[i]), U.iri_to_uri(urls_[i]), U.iri_to_uri(U.uri_to_iri(urls_[i])))
+                except Exception as e:  # noqa: BLE001
+                    got = ("EXC", type(e).__name__)
+                if got != alone[i]:
+                    wrong.append((urls_[i], got, alone[i]))
+                    return
+
+        ts = [threading.Thread(target=work, args=(i,)) for i in range(NT)]
+        for t in ts:
+            t.start()
+        for t in ts:
+            t.join(120)
+        rec.case()
+        rec.nontrivial(("concurrent-conversions", tuple(urls_)))
+        rec.observe("concurrent_url_conversions", NT * 25)
+        if wrong:
+            x, got, exp = wrong[0]
+            rec.violation("C15/conversion-depends-on-other-threads", f"{x!r} converted while five other threads convert their own URLs: {got!r}; alone: {exp!r}", {"family": "concurrent-conversions", "url": x}, monitor="schedule-stress")
+    finally:
+        sys.setswitchinterval(old_si)
+        for c in codes:
+            mon.set_local_events(TOOL, c, 0)
+        mon.free_tool_id(TOOL)
+        rec.observe("concurrent_conversion_injected_yields", inj[0])
+
+
 def check_dispatcher(W, rec, idx, of):
     DispatcherMiddleware = W["DispatcherMiddleware"]
     segs = ["a", "b", "c", "ab"]
@@ -369,6 +492,9 @@ def run(shard, rec, rng):
     check_dispatcher(W, rec, idx, of)
     if idx % 4 == 0:
         check_histories(W, rec)
+    if idx % 4 == 1:
+        with rec.guard({"family": "faults-and-schedules"}, "C15"):
+            check_faults_and_schedules(W, rec, rng)
     reach.finish()
 
 
